@@ -713,10 +713,9 @@ impl<E: Effect, R: CommandReceiver<E>, S: EventSender<E>> Worker<E, R, S> {
                             locals.push((extracted, heap));
                         }
                         None => {
-                            return self.sender.send(Event::LocalsResponse {
-                                request_id,
-                                result: Err(EnvironmentError::LocalNotFound { process_id, index }),
-                            });
+                            // A binding whose step never ran (its line short-circuited on nil or
+                            // left through a tail call) has no slot yet: it reads as nil.
+                            locals.push((Value::nil(), vec![]));
                         }
                     }
                 }
@@ -735,7 +734,7 @@ impl<E: Effect, R: CommandReceiver<E>, S: EventSender<E>> Worker<E, R, S> {
         process_id: ProcessId,
         keep_indices: Vec<usize>,
     ) -> Result<(), EnvironmentError> {
-        // Build the kept values (preserving the specific LocalNotFound error on a bad index)...
+        // Build the kept values...
         let process = self
             .executor
             .get_process(process_id)
@@ -745,9 +744,11 @@ impl<E: Effect, R: CommandReceiver<E>, S: EventSender<E>> Worker<E, R, S> {
         for &index in &keep_indices {
             match process.locals.get(index) {
                 Some(value) => new_locals.push(value.clone()),
-                None => {
-                    return Err(EnvironmentError::LocalNotFound { process_id, index });
-                }
+                // A binding whose step never ran (its line short-circuited on nil or left through
+                // a tail call) has no slot. Keep it as nil so the other bindings stay aligned with
+                // the host's re-indexed binding map; failing here would end the worker loop and
+                // hang every process on this worker.
+                None => new_locals.push(Value::nil()),
             }
         }
 
